@@ -302,4 +302,117 @@ theorem boundedLev_eq (a b : List κ) (k : Nat) :
           simp only [List.append_nil] at hl
           simp only [hl]
 
+/-! ### reading the recurrence from the right-hand end gives the same distance -/
+
+theorem levH_snoc_nil (x : κ) : ∀ (a : List κ), levH (a ++ [x]) [] = a.length + 1 := by
+  intro a; rw [levH_nil_right]; simp
+
+theorem levH_nil_snoc (y : κ) (b : List κ) : levH ([] : List κ) (b ++ [y]) = b.length + 1 := by
+  rw [levH_nil]; simp
+
+/-- the recurrence read from the right-hand end, first string a single character -/
+theorem levH_single_snoc (x y : κ) : ∀ (b : List κ),
+    levH [x] (b ++ [y]) = min (min (b.length + 1 + 1) (levH [x] b + 1)) (b.length + cost x y) := by
+  intro b
+  induction b with
+  | nil =>
+    simp only [List.nil_append, levH_cons_cons, levH_nil, levH_cons_nil, List.length_nil, List.length_cons]
+  | cons y0 b ih =>
+    simp only [List.cons_append, levH_cons_cons, levH_nil, List.length_cons, List.length_append,
+      List.length_nil] at ih ⊢
+    rw [ih]
+    have := cost_le_one x y
+    have := cost_le_one x y0
+    omega
+
+theorem min9 {p1 p2 p3 p4 p5 p6 p7 p8 p9 cxy c00 L A B C D E F : Nat}
+    (eL : L = min (min (A + 1) (B + 1)) (C + c00))
+    (hA : A = min (min (p1 + 1) (p2 + 1)) (p3 + cxy))
+    (hB : B = min (min (p4 + 1) (p5 + 1)) (p6 + cxy))
+    (hC : C = min (min (p7 + 1) (p8 + 1)) (p9 + cxy))
+    (eD : D = min (min (p1 + 1) (p4 + 1)) (p7 + c00))
+    (eE : E = min (min (p2 + 1) (p5 + 1)) (p8 + c00))
+    (eF : F = min (min (p3 + 1) (p6 + 1)) (p9 + c00)) :
+    L = min (min (D + 1) (E + 1)) (F + cxy) := by
+  subst eL hA hB hC eD eE eF
+  simp only [← Nat.add_min_add_right]
+  have e1 : p7 + c00 + 1 = p7 + 1 + c00 := by omega
+  have e2 : p8 + c00 + 1 = p8 + 1 + c00 := by omega
+  have e3 : p3 + 1 + cxy = p3 + cxy + 1 := by omega
+  have e4 : p6 + 1 + cxy = p6 + cxy + 1 := by omega
+  have e5 : p9 + c00 + cxy = p9 + cxy + c00 := by omega
+  rw [e1, e2, e3, e4, e5]
+  generalize p1 + 1 + 1 = a1
+  generalize p2 + 1 + 1 = a2
+  generalize p3 + cxy + 1 = a3
+  generalize p4 + 1 + 1 = a4
+  generalize p5 + 1 + 1 = a5
+  generalize p6 + cxy + 1 = a6
+  generalize p7 + 1 + c00 = a7
+  generalize p8 + 1 + c00 = a8
+  generalize p9 + cxy + c00 = a9
+  ac_rfl
+
+theorem levH_snoc_snoc (x y : κ) : ∀ (a b : List κ),
+    levH (a ++ [x]) (b ++ [y]) =
+      min (min (levH a (b ++ [y]) + 1) (levH (a ++ [x]) b + 1)) (levH a b + cost x y) := by
+  intro a
+  induction a with
+  | nil =>
+    intro b
+    rw [List.nil_append, levH_single_snoc, levH_nil, levH_nil]
+    simp
+  | cons x0 a iha =>
+    intro b
+    induction b with
+    | nil =>
+      simp only [List.nil_append, List.cons_append, levH_cons_cons, levH_nil_right,
+        List.length_cons, List.length_append, List.length_nil]
+      have h1 := iha []
+      simp only [List.nil_append, levH_nil_right, List.length_append, List.length_cons,
+        List.length_nil] at h1
+      have := cost_le_one x y
+      have := cost_le_one x0 y
+      omega
+    | cons y0 b ihb =>
+      have hA := iha (y0 :: b)
+      have hB := ihb
+      have hC := iha b
+      have eL := levH_cons_cons x0 y0 (a ++ [x]) (b ++ [y])
+      have eD := levH_cons_cons x0 y0 a (b ++ [y])
+      have eE := levH_cons_cons x0 y0 (a ++ [x]) b
+      have eF := levH_cons_cons x0 y0 a b
+      exact min9 eL hA hB hC eD eE eF
+
+
+/-- `levH` is invariant under reversing both strings: the right-to-left reading of the
+recurrence (what the row DP computes) is the textbook left-to-right one. -/
+theorem levH_reverse : ∀ (n : Nat) (a b : List κ), a.length + b.length ≤ n →
+    levH a.reverse b.reverse = levH a b := by
+  intro n
+  induction n with
+  | zero =>
+    intro a b h
+    have ha : a = [] := List.eq_nil_of_length_eq_zero (by omega)
+    have hb : b = [] := List.eq_nil_of_length_eq_zero (by omega)
+    subst ha hb; rfl
+  | succ n ih =>
+    intro a b h
+    cases a with
+    | nil => simp [levH_nil]
+    | cons x a =>
+      cases b with
+      | nil => simp [levH_nil_right]
+      | cons y b =>
+        simp only [List.length_cons] at h
+        rw [List.reverse_cons, List.reverse_cons, levH_snoc_snoc, levH_cons_cons]
+        have h1 := ih a (y :: b) (by simp only [List.length_cons]; omega)
+        have h2 := ih (x :: a) b (by simp only [List.length_cons]; omega)
+        have h3 := ih a b (by omega)
+        rw [List.reverse_cons] at h1 h2
+        rw [h1, h2, h3]
+
+theorem lev_eq_levH (a b : List κ) : lev a b = levH a b :=
+  levH_reverse (a.length + b.length) a b (Nat.le_refl _)
+
 end SL.Suggest
